@@ -1,3 +1,4 @@
+#![cfg_attr(target_pointer_width = "32", allow(arithmetic_overflow))] // 2^32-sized probes exist only in the 64-bit stages
 //! C14 — buffered signals are a transparent prefetch of the source.
 //!
 //! Model: a queue pre-filled with the given frames; when (and only when) it is empty, exactly one
